@@ -22,16 +22,19 @@ import (
 // It runs real code between two yield points; at a yield point it parks until
 // the driver releases it.
 type Task struct {
-	ID     string
-	Role   string
-	Node   *Node
-	Inc    int
-	gid    uint64
-	resume chan resumeMsg
-	point  string
-	parked bool
-	exited bool
-	nPark  int
+	ID        string
+	Role      string
+	Node      *Node
+	Inc       int
+	gid       uint64
+	resume    chan resumeMsg
+	point     string
+	prevPoint string
+	relPoint  string // point the task was last released from
+	relPrev   string // point it had parked at before that
+	parked    bool
+	exited    bool
+	nPark     int
 }
 
 type resumeMsg struct{ die bool }
@@ -285,6 +288,7 @@ func (s *Sim) park(t *Task, point string) {
 	}
 	raceOff()
 	s.mu.Lock()
+	t.prevPoint = t.point
 	t.point = point
 	t.parked = true
 	t.nPark++
@@ -340,6 +344,8 @@ func (s *Sim) Release(t *Task) {
 	}
 	t.parked = false
 	p := t.point
+	t.relPoint = t.point
+	t.relPrev = t.prevPoint
 	s.mu.Unlock()
 	s.Step++
 	s.Logf("%d t=%s run %s @%s", s.Step, s.Now(), t.ID, p)
